@@ -28,12 +28,16 @@ import (
 //	terminate   direct dial, the CONNECT request carries X-Martian-Terminate-Tls: true and the proxy
 //	            itself speaks TLS to the (TLS) target (proxy_connect.go Connect)
 //	upgrade     HTTP/1.1 Upgrade (101) to a scripted origin (the far leg is net/http's readWriteCloserBody)
+//	cf-…        a custom ConnectFunc returning one point of the capability lattice of legs.go (with / without
+//	            CloseWrite, found directly / by reflection / failing, io.Pipe pair, net.Pipe, fast paths)
 //
 // A leading "h-" runs the proxy through martian's http.Handler (proxy_handler.go, TestingHTTPHandler)
 // instead of its own connection loop (proxy_conn.go). "tls-" puts the proxy's listener behind TLS
 // (Protocol https, self-signed certificate): the scripted client does TLS first, then CONNECT, and the
 // client leg of the tunnel is a *tls.Conn. "rl-" rate-limits the (plain) listener - at a rate no
 // tunnel reaches -, which wraps the client leg into a connection without ReadFrom/WriteTo.
+// "lt-" (longevity.go) sets every timeout the proxy, its transport and its dialers have to 300-500 ms:
+// none of them may touch a tunnel once it is established.
 //
 // io.CopyBuffer only uses the buffer the copier hands it when the source has no WriteTo and the
 // destination no ReadFrom; a bare or conntrack-wrapped TCP leg has them. In the modes for which
@@ -41,7 +45,10 @@ import (
 // read-into-buffer / write-from-buffer loop at the same time.
 var allModes = []string{"direct", "http", "https", "socks5", "connectfunc", "upgrade", "h-direct", "h-http", "h-upgrade",
 	"tls-https", "tls-connecttls", "tls-connectfunc", "tls-terminate", "tls-upgrade", "tls-direct",
-	"h-tls-https", "h-tls-connecttls", "rl-connectfunc", "terminate"}
+	"h-tls-https", "h-tls-connecttls", "rl-connectfunc", "terminate",
+	// the capability lattice of a ConnectFunc's connection (legs.go)
+	"cf-direct", "cf-nested", "cf-cwerr", "cf-fast", "cf-closeonly", "cf-fast-closeonly", "cf-iopipe", "cf-netpipe",
+	"h-cf-closeonly", "tls-cf-closeonly", "rl-cf-iopipe", "tls-cf-netpipe", "h-cf-iopipe"}
 
 const nSlots = 16
 
@@ -49,6 +56,7 @@ type modeSpec struct {
 	handler     bool // martian's http.Handler instead of its connection loop
 	tlsListener bool // the proxy listens with TLS
 	rateLimited bool // the proxy's listener is rate-limited (client leg wrapped)
+	shortLimits bool // every timeout of the proxy / transport / dialer is a few hundred milliseconds
 	base        string
 }
 
@@ -61,6 +69,8 @@ func parseMode(mode string) (m modeSpec) {
 			m.tlsListener, mode = true, mode[4:]
 		case strings.HasPrefix(mode, "rl-"):
 			m.rateLimited, mode = true, mode[3:]
+		case strings.HasPrefix(mode, "lt-"):
+			m.shortLimits, mode = true, mode[3:]
 		default:
 			m.base = mode
 			return m
@@ -72,7 +82,7 @@ func baseMode(mode string) string { return parseMode(mode).base }
 
 // usesSlots: the far side is one of the env's slot targets (told apart by address, not by name).
 func usesSlots(base string) bool {
-	return base == "direct" || base == "connectfunc" || base == "connecttls" || base == "terminate"
+	return base == "direct" || base == "terminate" || isConnectFunc(base)
 }
 
 // bothLegsBuffered: neither leg of the tunnel offers io.ReaderFrom / io.WriterTo (see allModes).
@@ -82,7 +92,8 @@ func bothLegsBuffered(mode string) bool {
 		return false
 	}
 	switch m.base {
-	case "https", "connecttls", "connectfunc", "terminate", "upgrade":
+	case "https", "connecttls", "connectfunc", "terminate", "upgrade",
+		"cf-direct", "cf-nested", "cf-cwerr", "cf-closeonly", "cf-iopipe", "cf-netpipe":
 		return true
 	}
 	return false
@@ -153,6 +164,9 @@ func newEnv(ctx *core.Ctx, mode string) (*env, error) {
 		}
 		e.peers = append(e.peers, p)
 		return p, nil
+	}
+	if isConnectFunc(bm) && bm != "connecttls" {
+		bm = "connectfunc"
 	}
 	switch bm {
 	case "direct", "connectfunc", "connecttls", "terminate":
@@ -238,6 +252,9 @@ func newEnv(ctx *core.Ctx, mode string) (*env, error) {
 			}
 			tc.DialConfig.PromRegistry = e.promD
 			tc.DialConfig.PromNamespace = "fwd"
+			if e.spec.shortLimits {
+				shortTransportLimits(tc)
+			}
 		},
 		Configure: func(cfg *forwarder.HTTPProxyConfig) {
 			cfg.Name = "fwdverif"
@@ -249,6 +266,9 @@ func newEnv(ctx *core.Ctx, mode string) (*env, error) {
 			}
 			if e.spec.rateLimited {
 				cfg.ReadLimit, cfg.WriteLimit = 1<<36, 1<<36 // bytes per second
+			}
+			if e.spec.shortLimits {
+				shortProxyLimits(cfg)
 			}
 			switch bm {
 			case "http":
@@ -284,7 +304,7 @@ func (e *env) connectFunc(req *http.Request) (*http.Response, io.ReadWriteCloser
 		return nil, nil, err
 	}
 	e.cfOpen.Add(1)
-	var crw io.ReadWriteCloser = &trackedConn{Conn: c, closed: &e.cfOpen, count: &e.cfClosed}
+	crw := e.legFor(c.(*net.TCPConn))
 	if e.spec.base == "connecttls" {
 		tconn := tls.Client(crw.(net.Conn), &tls.Config{RootCAs: e.slotRoots, ServerName: host})
 		tconn.SetDeadline(time.Now().Add(10 * time.Second))
@@ -336,7 +356,7 @@ func (e *env) openSockets() (client, target float64, err error) {
 	if client, err = gauge(e.promP, "fwd_listener_cx_active"); err != nil {
 		return
 	}
-	if e.spec.base == "connectfunc" || e.spec.base == "connecttls" {
+	if isConnectFunc(e.spec.base) {
 		return client, float64(e.cfOpen.Load()), nil
 	}
 	target, err = gauge(e.promD, "fwd_dialer_cx_active")
@@ -377,7 +397,7 @@ func (e *env) closedSockets() (client, target float64, err error) {
 	if client, err = totalMinusActive(e.promP, "fwd_listener_cx"); err != nil {
 		return
 	}
-	if e.spec.base == "connectfunc" || e.spec.base == "connecttls" {
+	if isConnectFunc(e.spec.base) {
 		return client, float64(e.cfClosed.Load()), nil
 	}
 	target, err = totalMinusActive(e.promD, "fwd_dialer_cx")
